@@ -62,3 +62,14 @@ Theorem C17_text_outcomes : forall order ignore rules infos filtered terminals e
   | PTree _ | PUnexpectedCharacters | PUnexpectedToken | PBroken => True
   end.
 Proof. intros. destruct (parse_text _ _ _ _ _ _ _ _ _); exact I. Qed.
+
+(* (class)+ -- the shape of the SYMBOL, WS and digit terminals, checked on the regenerated expressions at every run
+   (symbol_shape) -- takes the longest run of class characters: a symbol is one token however long it is *)
+Theorem C17_class_plus_is_maximal_munch : forall r P, is_class r P -> forall s,
+  rmatch (RPlus r) s = match s with x :: s' => if P x then Some (drop_while P s') else None | [] => None end.
+Proof. exact plus_class_munch. Qed.
+Print Assumptions C17_class_plus_is_maximal_munch.
+
+Theorem C17_class_shapes : forall r P, class_pred r = Some P -> is_class r P.
+Proof. exact class_pred_sound. Qed.
+Print Assumptions C17_class_shapes.
